@@ -211,6 +211,7 @@ def explore_scanner(cx, res, kind, method, result_fn="as_str", exits=()):
         return st.heap["sr"].fields[1].e if kind == "slice" else st.notes["idx"]
 
     def on_header(e, st, fr, bb, what):
+        st.notes["arrive_cursor"] = st.notes.get("arrive_cursor", ()) + (cursor(st),)
         if kind == "io":
             st.notes["idx"] = z3.BitVec("idxh%d_%d" % (bb, len(st.notes["in"])), 64)
         else:
@@ -234,6 +235,24 @@ def explore_scanner(cx, res, kind, method, result_fn="as_str", exits=()):
     terms = eng.explore(fn.name, init)
     res.absorb(eng)
     return eng, rd, fn, info, terms
+
+
+def scanner_base_case(res, st, fn, kind, info, done, what, onm):
+    """the scan starts at the reader's position: nothing consumed before the loop, and (slice readers) `start` marks it"""
+    ac = st.notes.get("arrive_cursor", ())
+    if not ac:
+        return
+    c0 = ac[0]
+
+    def cond(a):
+        out = [c0 == info["idx0"]]
+        if kind == "slice":
+            sl = fn.local_by_debug("start")
+            if sl is None or sl not in a["locals"] or not isinstance(a["locals"][sl], Int):
+                return None
+            out.append(a["locals"][sl].e == info["idx0"])
+        return z3.And(*out)
+    K.base_case(res, st, 0, done, cond, "%s %s scanner: input is consumed before the scan loop / the range start is not the position the scan began at" % (kind, what), onm)
 
 
 def is_term(b):
@@ -268,6 +287,7 @@ def claim_symbol_scanners(cx, res, kf):
     for kind in ("slice", "io"):
         eng, rd, fn, info, terms = explore_scanner(cx, res, kind, "parse_symbol_bytes")
         cursor = info["cursor"]
+        base_done = set()
         seen = {"step": 0, "end": 0, "dot": 0}
         for t in terms:
             st = t.state
@@ -278,10 +298,16 @@ def claim_symbol_scanners(cx, res, kf):
             if not st.notes["in"]:
                 continue
             hb, rec = st.notes["in"][-1]
+            scanner_base_case(res, st, fn, kind, info, base_done, "symbol", onm)
             idx = rec["idx"]
             b = rd.at(idx)
             eof = z3.UGE(idx, rd.len)
             stop = z3.Or(eof, is_term(b))
+            if t.kind == "LOOP_BACK" and kind == "slice":
+                sl_ = fn.local_by_debug("start")
+                fr_ = st.frames[-1]
+                if sl_ is not None and isinstance(fr_.locals.get(sl_), Int):
+                    res.must_be_unsat(pc + [z3.Not(z3.ULE(fr_.locals[sl_].e, cursor(st)))], "slice symbol scanner: `start` overtakes the cursor (invariant start <= index)", onm)
             if t.kind == "LOOP_BACK":
                 seen["step"] += 1
                 good = z3.And(z3.Not(stop), cursor(st) == idx + 1)
@@ -360,6 +386,7 @@ def claim_string_scanners(cx, res, kf):
     for kind, result_fn in (("slice", "as_str"), ("io", "as_str")):
         eng, rd, fn, info, terms = explore_scanner(cx, res, kind, "parse_r6rs_str_bytes", result_fn, exits=["parse_r6rs_escape"])
         cursor = info["cursor"]
+        base_done = set()
         seen = {"skip": 0, "quote": 0, "escape": 0, "eof": 0}
         for t in terms:
             st = t.state
@@ -370,11 +397,17 @@ def claim_string_scanners(cx, res, kf):
             if not st.notes["in"]:
                 continue
             hb, rec = st.notes["in"][-1]
+            scanner_base_case(res, st, fn, kind, info, base_done, "string", onm)
             idx = rec["idx"]
             b = rd.at(idx)
             eof = z3.UGE(idx, rd.len)
             special = z3.And(z3.Not(eof), z3.Or(b == b8(ord('"')), b == b8(ord("\\"))))
             esc = K.calls(st, "parse_r6rs_escape")
+            if t.kind == "LOOP_BACK" and kind == "slice":
+                sl_ = fn.local_by_debug("start")
+                fr_ = st.frames[-1]
+                if sl_ is not None and isinstance(fr_.locals.get(sl_), Int):
+                    res.must_be_unsat(pc + [z3.Not(z3.ULE(fr_.locals[sl_].e, cursor(st)))], "slice string scanner: `start` overtakes the cursor (invariant start <= index)", onm)
             if t.kind == "LOOP_BACK":
                 if esc and len(st.events) and any(e[0] == "call" for e in st.events[st.notes.get("events_at_header", 0):]):
                     seen["escape"] += 1
